@@ -55,6 +55,15 @@ Proof.
     + intros p rt Hp. rewrite forallb_forall in Hd. apply val_plainb_sound. apply Hd. exact Hp.
 Qed.
 
+Lemma group_okb_sound : forall d T a b, group_okb d T a b = true -> group_ok d T a b.
+Proof.
+  intros d T a b H tb co Htb Hco Hg ET Hn. unfold group_okb in H. apply orb_true_iff in H. destruct H as [H|H].
+  - apply andb_true_iff in H. destruct H as [Ha Hb]. apply negb_true_iff in Ha, Hb. split; apply name_eqb_neq; assumption.
+  - exfalso. rewrite forallb_forall in H. specialize (H tb Htb). rewrite forallb_forall in H. specialize (H co Hco).
+    rewrite Hg, ET, name_eqb_refl in H. cbn in H.
+    destruct Hn as [E|E]; rewrite E, name_eqb_refl in H; [|rewrite orb_true_r in H]; discriminate.
+Qed.
+
 Lemma not_mem_pair : forall p l, mem_pair p l = false -> ~ In p l.
 Proof. intros p l H Hin. rewrite (mem_pair_in _ _ Hin) in H. discriminate. Qed.
 
